@@ -1236,8 +1236,31 @@ class _CacheModel:
                         attr = p.split(".")[1].replace("[]", "").replace("()", "")
                         if attr != "vars":
                             self.roots.add(self.alias.get(attr, attr))
+        # ... or fills / reads by subscript (try: cache[k] except KeyError), or asks a collaborator object that
+        # the constructor stored on self
+        init0 = repo.lookup_method(blk, "__init__")
+        constructed = set()
+        if init0 is not None:
+            for st in stores(init0.node):
+                if st.kind == "assign" and st.path.startswith("self.") and st.path.count(".") == 1 \
+                        and isinstance(st.value, ast.Call) and _resolve_cls(repo, init0.module, st.value.func) is not None:
+                    constructed.add(st.path.split(".")[1])
+        for g in class_methods_reachable(repo, dv, depth=2):
+            for st in stores(g.node, into_defs=True):
+                if st.path.startswith("self.") and st.path.count(".") == 1 and \
+                        (st.kind in ("setitem", "augsetitem") or (st.kind == "mutcall" and st.method in self._FILL)):
+                    attr = st.path.split(".")[1]
+                    if attr != "vars":
+                        self.roots.add(self.alias.get(attr, attr))
+            for c in calls(g.node, into_defs=True):
+                if isinstance(c.func, ast.Attribute):
+                    p = ap(c.func.value) or ""
+                    if p.startswith("self.") and p.count(".") == 1:
+                        attr = self.alias.get(p.split(".")[1], p.split(".")[1])
+                        if attr in constructed:
+                            self.roots.add(attr)
         if not self.roots:
-            raise AnalysisError("C09.R5: Block.deserialize_var has no cache-hit test any more (cache not found)")
+            raise AnalysisError("C09.R5: Block.deserialize_var neither tests nor fills a cache any more (cache not found)")
         self.collab: Dict[str, ClassInfo] = {}
         init = repo.lookup_method(blk, "__init__")
         if init is not None:
